@@ -372,7 +372,7 @@ def _loaders(R, B, k, only):
     from cooler.create import TabixAggregator
     import pysam
     table = alpha.bt_rep(3, B)[k]
-    flavour = "chr"
+    flavour = "num" if k % 3 == 1 else "chr"       # every third table: chromosome names that are all digits
     bins = alpha.table_bins(table, flavour)
     names = alpha.NAMES[flavour][:len(table)]
     order = {nm: q for q, nm in enumerate(names)}
@@ -724,11 +724,11 @@ def classify(m):
             ob = inner["opt"]["one_based"]
             anchors = [(c1, p1 - ob), (c2, p2 - ob)]
         elif cl == "cload-pairs:out-of-range-record-counted":
-            sizes = _sizes_of(inner["table"], "chr")
+            sizes = _sizes_of(inner["table"], "num" if str(inner["invalid"][0]).isdigit() else "chr")
             c1, p1, c2, p2 = inner["invalid"]
             anchors = [(c1, p1), (c2, p2)]
         elif cl == "load-bg2:out-of-range-record-counted":
-            sizes = _sizes_of(inner["table"], "chr")
+            sizes = _sizes_of(inner["table"], "num" if str(inner["invalid"][1]).isdigit() else "chr")
             anchors = [(inner["invalid"][1], inner["invalid"][2])]
         else:
             return None
